@@ -8,6 +8,9 @@ CLANG = ['clang-14', '-O1', '-fno-vectorize', '-fno-slp-vectorize', '-fno-unroll
          '-Wno-everything', '-S', '-emit-llvm'] + REPO_DEFS + REPO_INC + ['-I' + os.path.join(E2, 'include')]
 
 
+ENV_STUBS = {'fiber_poll_events', 'fiber_poll_events_blocking', 'dlsym', 'pthread_self', 'pthread_equal', 'usleep'}   # e2/rt/*_post.h
+
+
 def build(name, harness, srcs, spec, outdir, defines=()):
     """returns (path of generated CBMC C file, info dict)"""
     os.makedirs(outdir, exist_ok=True)
@@ -32,6 +35,7 @@ def build(name, harness, srcs, spec, outdir, defines=()):
     gen = os.path.join(outdir, name + '.cbmc.c')
     sh(tr + ['--mode', 'cbmc', '--objects', log, '--out', gen], what='ir2cell (cbmc)')
     info = json.load(open(gen + '.info.json'))
+    info['externals'] = [e for e in info['externals'] if e not in ENV_STUBS]
     if info['externals']:
         raise BuildError('harness %s calls external functions that have no model: %s' % (name, info['externals']))
     return gen, info
@@ -70,3 +74,35 @@ def config(pid, name, harness, threads, unwind, mm='sc', srcs=(), defines=(), sp
         meta.update(extra_meta)
     return jobs(name + '.' + mm, gen, info, mm=mm, unwind=unwind, timeout=timeout, required=required, mem_gb=mem_gb, meta=meta,
                 solver=solver, unwindset=unwindset)
+
+
+KERNEL_SRCS = ['fiber.c', 'fiber_spinlock.c', 'hazard_pointer.c']
+KERNEL_REPLACE = {'fiber_manager_yield': 'f_k_yield', 'fiber_scheduler_schedule': 'f_k_schedule',
+                  'fiber_context_destroy': 'f_k_context_destroy', 'fiber_context_init': 'f_k_context_init',
+                  'fiber_context_init_from_thread': 'f_k_context_init_from_thread'}
+KERNEL_ROOTS = ['k_yield', 'k_schedule', 'k_context_destroy', 'k_context_init', 'k_context_init_from_thread']
+
+
+def kspec(nf, spin=1, **kw):
+    """translator spec for a contract-kernel scenario with nf fibers"""
+    s = {'fibers': True, 'kthreads': nf, 'replace': dict(KERNEL_REPLACE), 'roots': list(KERNEL_ROOTS), 'spin': spin,
+         # a fiber's private manager: statistics and deferred-action slots are touched by that fiber only
+         'excl': [['(k_init|vm_init)#calloc0', None, list(range(1, nf + 1))]] + [['@k_in_maint', [t], [t]] for t in range(1, nf + 1)],
+         'site_types': {'(k_init|vm_init)#calloc0': '%struct.fiber_manager', '(k_init|vm_init)#calloc1': '%struct.fiber',
+                        '(k_init|vm_init)#calloc2': '%struct.mpsc_fifo_node', 'fiber_mutex_init#calloc0': '%struct.mpsc_fifo_node',
+                        'mpsc_fifo_init#calloc0': '%struct.mpsc_fifo_node'}}
+    s['no_free'] = True
+    s.update(kw)
+    return s
+
+
+ABSTRACT_MUTEX = {'fiber_mutex_lock': 'f_a_mutex_lock', 'fiber_mutex_trylock': 'f_a_mutex_trylock', 'fiber_mutex_unlock': 'f_a_mutex_unlock',
+                  'fiber_mutex_unlock_internal': 'f_a_mutex_unlock_internal'}
+
+
+def kspec_amutex(nf, spin=1, **kw):
+    """contract kernel + abstract mutex (the guarantee side of C03) for primitives built on fiber_mutex"""
+    s = kspec(nf, spin, **kw)
+    s['replace'].update(ABSTRACT_MUTEX)
+    s['roots'] += ['a_mutex_lock', 'a_mutex_trylock', 'a_mutex_unlock', 'a_mutex_unlock_internal']
+    return s
